@@ -1,7 +1,8 @@
 """C20 — the bundled registry carries the internationally standardised values.
 
 E1: the space the property quantifies over IS a finite table — every row of an independently
-curated table of standard values (refdata/standards.py: 32 prefixes, 214 unit/constant rows, 5
+curated table of standard values (refdata/standards.py: 32 prefixes, 391 unit/constant rows — every
+multiplicative unit and constant of the bundled files —, 5
 temperature scales) x every spelling pint defines for that unit x {Fraction registry: exact
 equality; float registry: a few ulp of the correctly rounded value}.  Each row is checked for
 its SI factor, its dimension exponents and, where a standard fixes one, its symbol."""
@@ -16,8 +17,8 @@ from mc.ref import defs
 PROPERTY = "C20"
 LEVEL = "exploration"
 RULE = (
-    "every row of the curated table (32 prefixes on 3 stems, 214 units/constants, 5 affine temperature scales at 4 points) x every spelling the definition files give that unit (names, symbols, aliases; prefixed "
-    "forms for prefixes) in the Fraction registry (exact) and the float registry (<= 4 ulp; pi-valued rows 1e-15); dimension exponents and standard symbols per row. non-trivial = distinct (row, spelling, registry)"
+    "every row of the curated table (32 prefixes on 3 stems, 391 units/constants = every multiplicative unit and constant the bundled files define, 5 affine temperature scales at 4 points) x every spelling the definition files give that unit (names, symbols, aliases; prefixed "
+    "forms for prefixes) in the Fraction registry (exact) and the float registry (<= 4 ulp; pi-valued rows 1e-15; rows containing a square root or a measured constant: the relative tolerance stated in the row); dimension exponents and standard symbols per row. non-trivial = distinct (row, spelling, registry)"
 )
 ASSUMPTIONS = [
     "refdata/standards.py was typed in from the SI Brochure 9th ed., NIST SP 811 / SP 330 / Handbook 44, IAU resolutions and the CODATA 2022 table, not derived from pint's files",
@@ -26,7 +27,8 @@ ASSUMPTIONS = [
 ]
 SITE_GRAMMAR = "[clause, canonical unit name, failure-kind, registry numeric type]"
 
-SI_ROOT = {"kg": "gram", "m": "meter", "s": "second", "A": "ampere", "K": "kelvin", "mol": "mole", "cd": "candela", "rad": "radian", "bit": "bit", "count": "count"}
+SI_ROOT = {"kg": "gram", "m": "meter", "s": "second", "A": "ampere", "K": "kelvin", "mol": "mole", "cd": "candela", "rad": "radian", "bit": "bit", "count": "count",
+           "px": "pixel", "riu": "refractive_index_unit", "abu": "absorbance_unit"}
 
 
 def table():
@@ -45,8 +47,10 @@ def call(fn):
 
 
 def expected_value(S, v):
-    """-> (Fraction or None, Decimal) exact rational if there is one, and a 45-digit decimal"""
+    """-> (Fraction or None, Decimal[, reltol]) exact rational if there is one, and a 45-digit decimal"""
     getcontext().prec = 60
+    if not isinstance(v, str) and v[0] == "approx":
+        return None, Decimal(v[1]), v[2]
     if isinstance(v, str):
         f = Fraction(v)
         return f, Decimal(f.numerator) / Decimal(f.denominator)
@@ -83,10 +87,17 @@ def run_rows(acc, nt):
             acc.count("rows whose unit pint does not define")
             continue
         canon = st[name]
-        exact, dec = expected_value(S, v)
+        ev_ = expected_value(S, v)
+        exact, dec = ev_[0], ev_[1]
+        reltol = ev_[2] if len(ev_) > 2 else None
         # root units: kilogram -> 1000 gram
         kg = dims.get("kg", 0)
-        scale = Fraction(1000) ** kg
+        if Fraction(kg).denominator == 1:
+            scale = Fraction(1000) ** int(kg)
+            scale_d = Decimal(scale.numerator) / Decimal(scale.denominator)
+        else:
+            scale = None
+            scale_d = Decimal(1000) ** Decimal(float(kg))
         want_units = {SI_ROOT[k]: Fraction(e) for k, e in dims.items() if e}
         spellings = M.units[canon].spellings()
         for sp in spellings:
@@ -101,7 +112,7 @@ def run_rows(acc, nt):
                 acc.violation(["value", canon, "spelling-not-usable", nt], case, "a quantity", o[1])
                 continue
             q = o[1]
-            got_units = {k: Fraction(x) for k, x in dict(q._units).items()}
+            got_units = {k: Fraction(x).limit_denominator(1000) for k, x in dict(q._units).items()}
             if got_units != want_units:
                 acc.violation(["dimension", canon, "differs-from-the-standard-dimension", nt], case, {k: str(x) for k, x in want_units.items()}, {k: str(x) for k, x in got_units.items()})
                 continue
@@ -109,8 +120,12 @@ def run_rows(acc, nt):
             if nt == "Fraction" and exact is not None and M.rational_unit(canon):
                 if not isinstance(m, (int, Fraction)) or Fraction(m) != exact * scale:
                     acc.violation(["value", canon, "differs-from-the-standardised-value", nt], case, str(exact * scale), repr(m))
+            elif reltol is not None:
+                want = dec * scale_d
+                if abs(Decimal(float(m)) - want) > abs(want) * Decimal(max(reltol, 4e-16 if nt != "Decimal" else 0)):
+                    acc.violation(["value", canon, "differs-from-the-standardised-value", nt], case, f"{str(want)[:30]} (rel. {reltol:g})", repr(m))
             else:
-                want = dec * Decimal(scale.numerator) / Decimal(scale.denominator)
+                want = dec * scale_d
                 tol_ulp = 4 if exact is not None else 16
                 if float(m) != float(want) and ulps(float(m), want) > tol_ulp and abs(Decimal(float(m)) - want) > abs(want) * Decimal("1e-15"):
                     acc.violation(["value", canon, "differs-from-the-standardised-value", nt], case, str(want)[:30], repr(m))
@@ -122,6 +137,9 @@ def run_rows(acc, nt):
             if o != ("ok", symbol) or o2 != ("ok", symbol):
                 acc.violation(["symbol", canon, "differs-from-the-standard-symbol", nt], {"registry": nt, "row": name}, symbol, [o, o2])
     acc.count("rows checked", len(S.ROWS) - missing)
+    rowset = {st[r[0]] for r in S.ROWS if r[0] in st} | {st[r[0]] for r in S.SCALES if r[0] in st}
+    outside = [n for n in M.order if n not in rowset and not n.startswith("delta_")]
+    acc.dim("units defined by the bundled files that have no row (logarithmic units: C06)", len(outside))
     acc.sample({"clause": "value", "row": "force_pound", "expected": "0.45359237 * 9.80665 N exactly", "spellings": M.units["force_pound"].spellings()})
 
 
@@ -210,11 +228,12 @@ def replay(rec):
 MANIFEST = {
     "category": "exploration",
     "technique": "exhaustive check of every entry of an independently curated finite table of standard values against the bundled registry, in every spelling, exactly (Fraction) and to a few ulp (float)",
-    "text": "The property quantifies over a finite table; the check enumerates all of it: 32 SI/binary prefixes (value, symbol, on three stems, name and symbol forms), 214 units and constants (SI base and named "
+    "text": "The property quantifies over a finite table; the check enumerates all of it: 32 SI/binary prefixes (value, symbol, on three stems, name and symbol forms), 391 units and constants — every multiplicative unit and constant "
+    "of default_en.txt and constants_en.txt (the 7 logarithmic units are in C06's table) — (SI base and named "
     "units, the 2019 defining constants and exact derived constants, non-SI accepted units, the international yard and pound with US customary, survey, avoirdupois, troy, apothecaries, US liquid/dry and "
-    "imperial capacity multiples, force/pressure/energy/power units, CGS, radiation, electrical, information units, CODATA 2022 measured constants to the printed digits) and 5 affine temperature scales. For "
+    "imperial capacity multiples, force/pressure/energy/power units, manometric units, CGS-EMU and Gaussian units, the 1990 conventional electrical units, radiation, information, typographic and textile units, mathematical constants recomputed to 60 digits, constants derived from the defining constants, CODATA 2022 measured constants to the printed digits and the constants that follow from them) and 5 affine temperature scales. For "
     "every row and every spelling the definition files give that unit, Quantity(1, spelling).to_root_units() must have exactly the standard dimension exponents and, in the Fraction registry, exactly the "
     "standard value (float registry: 4 ulp), and the standard symbol where one is fixed. The table is typed in from the standards, not generated from pint's files, so an edited digit in either definition file is caught.",
-    "note": "Trusted: the curated table (its provenance is stated per row) and R1's list of alternative spellings. Units outside the table are not covered; pi-valued rows are compared to 1e-15 in every registry.",
+    "note": "Trusted: the curated table (its provenance is stated per row) and R1's list of alternative spellings. Derived constants are recomputed here from the CODATA inputs with 60-digit decimals (and cross-checked against the printed CODATA values inside the table module); pi-valued rows are compared to 1e-15 in every registry.",
     "ref": "DESIGN.md §4 C20",
 }
